@@ -74,8 +74,12 @@ class Recorder:
 			# keep at least a few records of every mechanism
 			kept = sum(1 for v in self.violations if v["mech"] == m)
 			if kept < 5 and len(self.violations) < MAX_VIOLATIONS:
-				self.violations.append({"class": cls, "params": params,
-					"detail": detail, "mech": m})
+				v = {"class": cls, "params": params, "detail": detail,
+					"mech": m}
+				if getattr(self, "cur_env", None):
+					# process-wide settings of the worker that produced it
+					v["env"] = dict(self.cur_env)
+				self.violations.append(v)
 
 	def held(self, cls, params, nontrivial=False, key=None):
 		self.case(cls, params, "held", nontrivial=nontrivial, key=key)
